@@ -210,6 +210,9 @@ structure Cfg where
   /-- master rule verdict for a well-formed proof of a chain: `some true` accepts,
       `some false` rejects with an error, `none` = chain unknown / no rule bound -/
   rule : String → Option Bool := fun c => if c == "c1" || c == "c2" || c == "c4" then some true else if c == "c3" then some false else none
+  /-- other BitXHubs registered as available relay chains (`IsAvailableBitxhub`), each with `hubN` validators in its trust root -/
+  hubs : List String := []
+  hubN : Nat := 4
 
 def gasNormal : Nat := 21000
 def gasFailed : Nat := 21000
@@ -227,8 +230,21 @@ def IType.isRequest : IType → Bool | .interchain => true | _ => false
 def IType.isResponse : IType → Bool
   | .receiptSuccess | .receiptFailure | .receiptRollback => true | _ => false
 
-inductive ProofKind | ok | none | bad | plainFalse
+/-- `msig k`: a `BxhProof` signed by the first `k` validators of the other hub (`val-1 … val-k`, distinct) over the IBTP and its status -/
+inductive ProofKind | ok | none | bad | plainFalse | msig (k : Nat)
 deriving Repr, DecidableEq
+
+/-- the `Extra` field as far as the code looks at it: empty, a `BxhProof` naming BEGIN_FAILURE / BEGIN_ROLLBACK (the destination
+hub's notice), a `BxhProof` naming another status, or bytes that are no `BxhProof` -/
+inductive Ext | none | beginFailure | beginRollback | other | junk
+deriving Repr, DecidableEq
+
+def Ext.isNotice : Ext → Bool | .beginFailure | .beginRollback => true | _ => false
+
+/-- numeric `TxStatus` the field names (`junk` has none) -/
+def Ext.status : Ext → Nat | .beginFailure => 1 | .beginRollback => 2 | .other => 3 | _ => 0
+
+def noticeEvent (e : Ext) : String := ((Gen.txStatus2Event.find? (·.1 == e.status)).map (·.2)).getD ""
 
 structure Ibtp where
   frm : Option SvcId          -- `none`: the id does not split into three parts
@@ -237,6 +253,7 @@ structure Ibtp where
   typ : IType
   timeout : Int
   group : Option (List (SvcId × Nat))
+  ext : Ext := .none
 deriving Repr
 
 inductive Arg | s (v : String) | u (v : Nat) | b (v : Bool) | i (v : Int) | svc (v : SvcId) | tid (v : TxId) | badnum | opq
@@ -353,10 +370,17 @@ def tmBegin (l : Led) (cur : Nat) (id : TxId) (t : Nat) (failed : Bool) : Led ×
   let r : Rec := { height := recordHeight cur t, status := st }
   (l.addS (.txRec id) (.trec r), { prev := none, cur := st })
 
-/-- `BeginInterBitXHub` with an empty / status-0 proof (the only kind the harness sends) -/
-def tmBeginInter (l : Led) (cur : Nat) (id : TxId) (t : Nat) (failed : Bool) : Except String (Led × StatusChange) :=
+/-- `BeginInterBitXHub`.  On an existing record the `Extra` field is the destination hub's notice: since the `fix:` commit "the
+destination hub's notice ends an inter-BitXHub transaction for the timeout mechanism too" the FSM starts from the stored status
+and the stored deadline is kept (before, from an empty record: any status was taken for BEGIN and the deadline became 0) -/
+def tmBeginInter (l : Led) (cur : Nat) (id : TxId) (t : Nat) (ext : Ext) (failed : Bool) : Except String (Led × StatusChange) :=
   match l.getS (.txRec id) with
-  | some _ => .error "2080000"     -- existing record: event "" is not in the table
+  | some (.trec r) =>
+    if ext == .junk then .error "1100005"
+    else match txFsmStep r.status (noticeEvent ext) with
+      | none => .error "1100005"     -- also: an empty field / another status names no event
+      | some st' => .ok (l.addS (.txRec id) (.trec { r with status := st' }), { prev := some r.status, cur := st' })
+  | some _ => .error "2100000"
   | none =>
     let st := if failed then Status.beginFailure else Status.begin
     let r : Rec := { height := recordHeight cur t, status := st }
@@ -498,7 +522,7 @@ def checkTarget (env : Env) (l : Led) (src dst : SvcId) : Bool × Bool :=
         if !s.available then (false, true)
         else if s.blacklist.contains src then (false, true)
         else (!s.ordered, false)
-  else (false, true)    -- no remote BitXHub is registered in the modelled world
+  else (false, !env.cfg.hubs.contains dst.bxh)    -- `checkBitXHubAvailability`
 
 structure Checked where
   src : SvcId
@@ -506,8 +530,17 @@ structure Checked where
   ic : IC
   isBatch : Bool
   targetErr : Bool
+  notice : Bool := false
 
-/-- `checkIBTP` (inter-hub notifications are outside the op language: `isNotification = false`) -/
+/-- `checkTxStatusForSourceBxh`: is this the request handed back with the destination hub's notice?  `none`: the `Extra` field
+of a request that was processed before is no `BxhProof` -/
+def isNotification (l : Led) (src dst : SvcId) (i : Ibtp) : Option Bool :=
+  if src.bxh == dst.bxh || i.typ.isResponse then some false
+  else match l.getS (.idxReq { frm := src, to := dst, index := i.index }) with
+    | some _ => if i.ext == .junk then none else some i.ext.isNotice
+    | none => some false
+
+/-- `checkIBTP` -/
 def checkIBTP (env : Env) (l : Led) (i : Ibtp) : Except String Checked :=
   match i.frm with
   | none => .error "1080002"
@@ -516,7 +549,10 @@ def checkIBTP (env : Env) (l : Led) (i : Ibtp) : Except String Checked :=
     | none => .error "1080003"
     | some dst =>
       let ic := getIC l src
-      if i.typ.isRequest then
+      match isNotification l src dst i with
+      | none => .error "2080000"
+      | some notif =>
+      if i.typ.isRequest && !notif then
         if isLocal env src then
           match getSvc l env.cache src.chain src.sid with
           | none => .error "1080007"
@@ -531,21 +567,28 @@ def checkIBTP (env : Env) (l : Led) (i : Ibtp) : Except String Checked :=
               else .ok { src := src, dst := dst, ic := ic, isBatch := isBatch, targetErr := terr }
         else
           if !isLocal env dst then .error "1080004"
-          else .error "1080011"    -- source BitXHub is not a registered, available appchain
-      else if i.typ.isResponse then
+          else if !env.cfg.hubs.contains src.bxh then .error "1080011"    -- source BitXHub is not a registered, available appchain
+          else
+            let (isBatch, terr) := checkTarget env l src dst
+            if !isBatch then
+              match checkIndex (KV.getD ic.ic dst 0 + 1) i.index with
+              | .error e => .error e
+              | .ok _ => .ok { src := src, dst := dst, ic := ic, isBatch := isBatch, targetErr := terr }
+            else .ok { src := src, dst := dst, ic := ic, isBatch := isBatch, targetErr := terr }
+      else if i.typ.isResponse || notif then
         if isLocal env src then
           match getSvc l env.cache src.chain src.sid with
           | none => .error "runtime"      -- nil service dereferenced; recovered by the bolt VM
           | some s =>
             match checkIndex (KV.getD ic.rc dst 0 + 1) i.index with
             | .error e => .error e
-            | .ok _ => .ok { src := src, dst := dst, ic := ic, isBatch := !s.ordered, targetErr := false }
+            | .ok _ => .ok { src := src, dst := dst, ic := ic, isBatch := !s.ordered, targetErr := false, notice := notif }
         else
           if !isLocal env dst then .error "1080004"
           else
             match checkIndex (KV.getD ic.rc dst 0 + 1) i.index with
             | .error e => .error e
-            | .ok _ => .ok { src := src, dst := dst, ic := ic, isBatch := false, targetErr := false }
+            | .ok _ => .ok { src := src, dst := dst, ic := ic, isBatch := false, targetErr := false, notice := notif }
       else .error "1080005"
 
 /-- `genGlobalTxID` pre-image: the group map (later duplicates of a key win) -/
@@ -558,7 +601,7 @@ def beginTransaction (env : Env) (l : Led) (i : Ibtp) (ck : Checked) : Except St
   if ck.src.bxh ≠ ck.dst.bxh then
     -- since the `fix:` commit "the source hub records the deadline of an inter-BitXHub request" the deadline is recorded on the
     -- source hub too (before, the source hub passed 0 and the record carried none)
-    match tmBeginInter l env.height id t ck.targetErr with
+    match tmBeginInter l env.height id t i.ext ck.targetErr with
     | .error _ => .error "2080000"
     | .ok r => .ok r
   else
@@ -612,7 +655,7 @@ def setDestIC (l : Led) (frm to : SvcId) (index : Nat) (ic : IC) : Led :=
 def processIBTP (l : Led) (i : Ibtp) (ck : Checked) (c : StatusChange) : Led × String :=
   let id : TxId := { frm := ck.src, to := ck.dst, index := i.index }
   let ret := if ck.isBatch then "batch_ibtp" else if ck.targetErr then "begin_failure" else ""
-  if i.typ.isRequest then
+  if i.typ.isRequest && !ck.notice then
     let ic := { ck.ic with ic := KV.set ck.ic.ic ck.dst (KV.getD ck.ic.ic ck.dst 0 + 1) }
     let l1 := setIC l ck.src ic
     let l2 := l1.addS (.idxReq id) .unit
@@ -637,9 +680,11 @@ def handleIBTP (env : Env) (l : Led) (i : Ibtp) : Except String (Led × String) 
   | .ok ck =>
     let id : TxId := { frm := ck.src, to := ck.dst, index := i.index }
     let r := if i.typ.isRequest then beginTransaction env l i ck
-             else match tmReport l id i.typ.toNat with
+             else if i.typ.isResponse then
+               match tmReport l id i.typ.toNat with
                | .error _ => .error "2080000"
                | .ok x => .ok x
+             else .error "runtime"   -- a notice of neither category: the nil status change is dereferenced (recovered by the bolt VM)
     match r with
     | .error e => .error e
     | .ok (l1, c) =>
@@ -684,13 +729,17 @@ def proofVerdict (cfg : Cfg) (i : Ibtp) (p : ProofKind) : Option String :=
   | .none => some "proof-empty"
   | .bad => some "proof-hash"
   | .plainFalse => some "proof-rule"     -- the bound rule answers plain false (no error)
-  | .ok =>
+  | .ok | .msig _ =>
     -- `verifyProof` parses the origin ignoring the parse error: a malformed id, a foreign BitXHub or an
     -- unknown chain all end in "get appchain ... failed", wrapped as a proof error like a rule error
     match (if i.typ.isRequest then i.frm else i.to) with
     | none => some "proof-rule"
     | some s =>
-      if s.bxh ≠ cfg.bxh then some "proof-rule"
+      if s.bxh ≠ cfg.bxh then
+        -- `verifyMultiSign` against the trust root of the other hub's appchain record: more than (n-1)/3 distinct validators
+        match p with
+        | .msig k => if cfg.hubs.contains s.bxh && decide (min k cfg.hubN > (cfg.hubN - 1) / 3) then none else some "proof-rule"
+        | _ => some "proof-rule"
       else match cfg.rule s.chain with
         | none => some "proof-rule"
         | some true => none
@@ -815,6 +864,14 @@ inductive TOAct
   | abort              -- "can't read record from ledger": the rest of the bookkeeping is abandoned
 deriving Repr, DecidableEq
 
+/-- `finalInterBitXHubRecord`: the recorded deadline of a transaction between two BitXHubs whose record is final -/
+def finalInterRecord (l : Led) (id : TxId) : Option Nat :=
+  if id.frm.bxh != id.to.bxh then
+    match l.getS (.txRec id) with
+    | some (.trec r) => if r.status.isFinal then some r.height else none
+    | _ => none
+  else none
+
 def timeoutAct (cfg : Cfg) (l : Led) (h : Nat) (tx : Tx) (rc : Rcpt) : TOAct :=
   match tx with
   | .ibtp _ i _ =>
@@ -827,7 +884,12 @@ def timeoutAct (cfg : Cfg) (l : Led) (h : Nat) (tx : Tx) (rc : Rcpt) : TOAct :=
       -- `invalid` alone does not end the bookkeeping; the record decides
       -- since the `fix:` commit "the receipt of a one-to-one transaction leaves the timeout list even if it carries a Group":
       -- only a REQUEST with a Group is left to the transaction manager's group bookkeeping
-      if t.chain == cfg.bxh || (i.group.isSome && !i.typ.isResponse) || (invalid && !i.typ.isResponse) || failBegin then .skip
+      -- since the `fix:` commit "the destination hub's notice ends an inter-BitXHub transaction for the timeout mechanism too":
+      -- a request between two hubs whose record is final leaves the list its record names and joins none
+      let finalInter : Option Nat := if i.typ.isRequest then finalInterRecord l id else none
+      if t.chain == cfg.bxh || (i.group.isSome && !i.typ.isResponse) then .skip
+      else if finalInter.isSome then .remove (finalInter.getD 0) id
+      else if (invalid && !i.typ.isResponse) || failBegin then .skip
       else if i.typ.isRequest then
         if i.timeout ≤ 0 ∨ i.timeout.toNat ≥ maxU64 - h then .skip
         else .add (h + i.timeout.toNat) id
